@@ -61,6 +61,9 @@ META = dict(
 META["rule"] += (
     " " + 'Added later: a dozen further array-taking static helpers, constructors and setters in the argument ledger (coordinate conversions, rectangular grids, Legendre coordinates, recurrence thresholds, ClimateNetwork / ResNetwork / Data / ClimateData constructors, node weights, edge lists, symmetrize_by_absmax).')
 
+META["rule"] += (
+    " " + 'Added after the fifth round: 40 % of the network-type objects carry node weights, a link attribute and a node attribute set by their owner after construction (read back during and at the end of the sequence); cache_clear / clear_cache take part in every sequence three times; the Monte-Carlo significance calls of EventSeries take part as culprits.')
+
 CULPRITS = {
     "Surrogates": [
         ("white_noise_surrogates", lambda o: o.white_noise_surrogates()),
